@@ -192,7 +192,7 @@ pub fn run_one(tier: &str, check: &str, seed: u64, tmp: &Path, log: Option<&mut 
         }
         "t7" => crate::t7::run_batch(seed, 0, 4000),
         "t4" => {
-            let evs = crate::t4::generate(seed);
+            let evs = crate::t4::generate_for(seed, check);
             with_runtime(crate::t4::run_events(seed, &evs, tmp, "g"))
         }
         "t15" => {
